@@ -372,6 +372,7 @@ def run_check(prop, stages, tier, seed, assumptions, rule, replay=None):
         cov["candidate_violations"] = len(cands)
         # ---- 4. reproduce each distinct (tag, site) group in a fresh process
         groups = {}
+        unreproduced = []
         by_trace = {}
         for job, t, line, tag in cands:
             by_trace.setdefault(job[6], set()).add(line)
@@ -393,8 +394,10 @@ def run_check(prop, stages, tier, seed, assumptions, rule, replay=None):
                     break
                 os.remove(rp)
             if confirmed is None:
-                raise Infra("candidate violation %s at %s did not reproduce in a fresh process "
-                            "(flaky driver or nondeterministic case): not a verdict" % (tag, site))
+                # not a verdict (never reported as a violation); remembered, and exit 2 unless something else is confirmed
+                unreproduced.append("%s at %s" % (tag, site))
+                log("  candidate %s at %s did not reproduce in a fresh process: not a verdict" % (tag, site))
+                continue
             cov["reproduced_violations"] += len(members)
             k = match_finding(findings, prop, tag, site)
             if k:
@@ -407,6 +410,10 @@ def run_check(prop, stages, tier, seed, assumptions, rule, replay=None):
                 print("VIOLATION property=%s replay=%s" % (prop, confirmed), flush=True)
                 log("  tag=%s site=%s events=%d first=%s" % (tag, site, len(members), json.dumps(members[0][3])[:600]))
                 status = 1
+        cov["unreproduced_candidates"] = unreproduced
+        if unreproduced and status == 0:
+            raise Infra("candidate violations did not reproduce in a fresh process (flaky driver, nondeterministic "
+                        "case or overloaded machine), no verdict: " + "; ".join(unreproduced))
         return status
     finally:
         if not replay:
@@ -425,7 +432,7 @@ def _save_replay(prop, family, tag, site, case):
     return p
 
 
-def _reproduces(st, driver, work, replay_path, tag):
+def _reproduces(st, driver, work, replay_path, tag, _attempt=0):
     with open(replay_path) as f:
         doc = json.load(f)
     cases = os.path.join(work, "repro.cases.ndjson")
@@ -437,7 +444,12 @@ def _reproduces(st, driver, work, replay_path, tag):
         env = dict(GORACE="log_path=%s exitcode=0" % (trace + ".race"))
     run_driver(driver, [st.family, "run", "-cases", cases, "-out", trace], env=env)
     viols, n, _ = tlc_trace(st.trace[0], st.trace[1], trace, work)
-    return any(tag in tags for _, _, tags in viols)
+    if any(tag in tags for _, _, tags in viols):
+        return True
+    if st.race and _attempt < 4:
+        # schedule-dependent observation (race detector, parallel run): the same case is executed again
+        return _reproduces(st, driver, work, replay_path, tag, _attempt + 1)
+    return False
 
 
 def _replay(prop, stages, drivers, work, replay_path, findings):
